@@ -109,7 +109,7 @@ func substStatements(seeds []string) []string {
 	return ok
 }
 
-func runSubst(r *ev.Run, col *sqlgen.Collector, seeds []string) {
+func runSubst(r *ev.Run, expired func() bool, col *sqlgen.Collector, seeds []string) {
 	d := sqlgen.Current
 	if !sqlgen.IsMySQL() {
 		col.Info("subst_skipped", "PostgreSQL substitutes through pg_query (encryptor/postgresql), not through sqlparser")
@@ -138,7 +138,7 @@ func runSubst(r *ev.Run, col *sqlgen.Collector, seeds []string) {
 	col.Info("subst_literals", len(jobs))
 	col.Info("subst_menu", len(menu))
 	tl := newTally()
-	done := par.Do(len(jobs), r.Expired, func(i int) {
+	done := par.Do(len(jobs), expired, func(i int) {
 		j := jobs[i]
 		for _, m := range menu {
 			c := caseT{Dialect: d, Kind: "subst", SQL: stmts[j.stmt], Index: j.lit, Bytes: ev.Hex(m.Bytes), Menu: m.Name}
